@@ -123,7 +123,7 @@ OPS = [
     ("pop", 5), ("pop_default", 3), ("popitem", 2), ("setdefault", 4), ("setdefault_none", 2),
     ("update", 6), ("update_failing", 3), ("copy", 3), ("or", 2), ("ror", 2), ("ior", 2),
     ("fromkeys", 1), ("clear", 1), ("len", 2), ("listing", 3), ("eq", 4), ("sorted", 4), ("has_key", 2),
-    ("iter", 1), ("noise_decode", 2),
+    ("iter", 1), ("noise_decode", 2), ("comp_add", 4),
 ]
 
 
@@ -152,6 +152,11 @@ def generate(rng, cfg):
         a = {}
         if op in ("getitem", "delitem", "contains", "get", "pop", "has_key", "setdefault_none"):
             a["k"] = _pick_key(rng, model)
+        elif op == "comp_add":
+            if cls in ("CaselessDict", "Parameters"):
+                op = "setitem"       # plain maps have no add(); the step is an item assignment there
+            a["k"] = _pick_key(rng, model, rng.random() < 0.4)
+            a["v"] = val
         elif op in ("setitem", "setdefault"):
             a["k"] = _pick_key(rng, model, rng.random() < 0.45)
             a["v"] = None if rng.random() < 0.1 else val     # None is a value like any other
@@ -268,6 +273,17 @@ def _model_step(model, step, out):
         return ("ok", model[K]) if K in model else ("exc", "KeyError")
     if op == "setitem":
         model[norm(a["k"])] = a["v"]
+        return ("ok", None)
+    if op == "comp_add":
+        # Component.add(name, value, encode=0): the route most properties take into a component; a second value of
+        # one name makes a list
+        K = norm(a["k"])
+        if K not in model:
+            model[K] = a["v"]
+        elif isinstance(model[K], list):
+            model[K] = model[K] + [a["v"]]
+        else:
+            model[K] = [model[K], a["v"]]
         return ("ok", None)
     if op == "delitem":
         K = norm(a["k"])
@@ -533,6 +549,9 @@ def _apply(d, cls, op, a):
         return d[k]
     if op == "setitem":
         d[k] = a["v"]
+        return None
+    if op == "comp_add":
+        d.add(k, a["v"], encode=0)
         return None
     if op == "delitem":
         del d[k]
